@@ -8,7 +8,7 @@ from . import REGISTRY as R
 from .core import (val_eq, val_lt, z_and, z_or, z_not, z_any, z_all, generic_args, qself, Ready, FmtArgs)
 from . import strings
 from ..parser import Unsupported, strip_generics
-from ..values import (Adt, LV, Ref, BoxV, PyVec, PySlice, PyMap, Opaque, TokStr, ZStr, SegStr, Bytes, STRLEN, Some, NONE,
+from ..values import (Adt, LV, Ref, BoxV, PyVec, PySlice, PyMap, Opaque, TokStr, ZStr, SegStr, NumStr, Bytes, STRLEN, Some, NONE,
                       Ok, Err, Tuple, UNIT, is_sym, copy_val, clone_val, deref, deref1, mkref, Closure, FnItem)
 from ..explore import Panic
 
@@ -422,7 +422,7 @@ def key_doc(I, v, ty=''):
     """JSON object key (serde_json renders Uuid / String keys as strings)"""
     v = deref(v)
     t = strip_generics(ty).lstrip('&').split('::')[-1]
-    if isinstance(v, (str, TokStr, ZStr, SegStr)):
+    if isinstance(v, (str, TokStr, ZStr, SegStr, NumStr)):
         return v
     if t == 'Uuid' or isinstance(v, int) or is_sym(v):
         return ('uuidkey', v)
@@ -434,7 +434,7 @@ def to_doc(I, v, ty=''):
     v = deref(v)
     t = strip_generics(ty).lstrip('&').strip()
     last = t.split('::')[-1]
-    if isinstance(v, (str, TokStr, ZStr, SegStr)):
+    if isinstance(v, (str, TokStr, ZStr, SegStr, NumStr)):
         return ('str', v)
     if isinstance(v, bool):
         return ('bool', v)
@@ -594,6 +594,11 @@ class ZWriter:
 
     def __init__(self):
         self.docs = []
+
+
+@R.model(r'^<Compression as Default>::default$', r'^flate2::Compression::\w+$', first=True)
+def m_compression(I, path, args):
+    return Opaque('Compression')
 
 
 @R.model(r'^flate2::write::ZlibEncoder::new$', r'^BufWriter::new$', r'^std::io::BufWriter::new$')
